@@ -60,7 +60,7 @@ func (fr *Frame) guardedCheck(st *State, fa *ssa.FieldAddr, base Val, pos token.
 	if write {
 		kind = "write"
 	}
-	freshObj := fmt.Sprintf("(> %s %s)", base.S, fr.topEntryHeap())
+	freshObj := fmt.Sprintf("(> (root %s) %s)", base.S, fr.topEntryHeap())
 	if l := tc.lockOf(fname); l != "" {
 		lockRef := r.subObj(sk, l, base.S)
 		held := sSelect(r.get(st, "g|$held"), lockRef)
@@ -148,7 +148,7 @@ func (fr *Frame) lockOp(st *State, c *ssa.CallCommon, lock Val, acquire bool, po
 		fr.r.locks = append(fr.r.locks, lockRec{lock.S, sk, field})
 		if tc != nil && ok && sk != "$globals" {
 			// other goroutines may have changed the guarded fields: havoc unless the object is fresh
-			freshObj := fmt.Sprintf("(> %s %s)", base.S, fr.topEntryHeap())
+			freshObj := fmt.Sprintf("(> (root %s) %s)", base.S, fr.topEntryHeap())
 			so := structOf(base.T)
 			for _, f := range tc.GuardedBy[field] {
 				for i := 0; i < so.NumFields(); i++ {
@@ -209,12 +209,7 @@ func (fr *Frame) assumeTypeInv(st *State, tc *TypeContract, base Val) {
 func (fr *Frame) checkTypeInv(st *State, tc *TypeContract, base Val, pos token.Pos, kind string) {
 	cf := fr.typeInvFrame(tc, base)
 	for i, c := range tc.Inv {
-		v, err := cf.eval(st, c.Expr, nil)
-		if err != nil {
-			fr.r.note(fmt.Sprintf("type %s inv %q: %v", tc.Name, c.Text, err))
-			continue
-		}
-		fr.r.require(st, kind, fr.oblFunc(), fr.oblName(fmt.Sprintf("%s.%s@%s", tc.Name, c.Label(fmt.Sprintf("#%d", i+1)), fr.r.eng.pos(pos))), v.S, c.Tags, pos, c.Text)
+		cf.requireExpr(st, kind, fr.oblFunc(), fr.oblName(fmt.Sprintf("%s.%s@%s", tc.Name, c.Label(fmt.Sprintf("#%d", i+1)), fr.r.eng.pos(pos))), c.Expr, nil, c.Tags, pos, c.Text)
 	}
 }
 
